@@ -1412,17 +1412,24 @@ impl Parser<'_> {
                     .map(Into::into)
                 {
                     let n = numer.map_with(denom, |n, d| n / d, |n, d| n / d);
-                    s.push('/');
-                    s.push_str(&ds);
-                    if s.contains('¯') {
-                        let neg_count = s.chars().filter(|&c| c == '¯').count();
-                        if neg_count == 2 {
-                            s = s.replace('¯', "");
-                        } else if neg_count == 1 && !s.starts_with('¯') {
-                            s = s.replace('¯', "");
+                    // Move the sign of the denominator to the numerator.
+                    // Only a leading sign negates the whole part: an exponent has its own sign,
+                    // and so has each component of a part with several components.
+                    let several_comps = |s: &str| s.contains('r') && s.contains('i');
+                    let mut ds = ds.as_str();
+                    if let Some(unsigned) = ds.strip_prefix('¯')
+                        && !several_comps(&s)
+                        && !several_comps(ds)
+                    {
+                        ds = unsigned;
+                        if s.starts_with('¯') {
+                            s.remove(0);
+                        } else {
                             s.insert(0, '¯');
                         }
                     }
+                    s.push('/');
+                    s.push_str(ds);
                     span.merge_with(dspan);
                     return Some(span.sp((n, s)));
                 } else {
